@@ -31,7 +31,7 @@ def budget(tier):
 
 
 def gen_case(rng, idx, tier):
-    if idx % 300 == 5:
+    if idx % 301 == 5:
         return {"lane": "real", "seed": rng.randrange(1 << 30), "cores": rng.choice([2, 3])}
     return poolcase.gen_pool_case(rng, faults=True)
 
